@@ -12,7 +12,7 @@
    [at_path t rel m] the tree t holds the entry m at rel.  For EVERY tree, EVERY pattern list, EVERY root path.
    sound    : what is reported / copied / archived has no fully matched component; what has one is not deleted;
    complete : an entry at a clear path (root path without a match) is reported / copied / archived / deleted. *)
-From Coq Require Import List ZArith Bool.
+From Coq Require Import List ZArith Bool String.
 Import ListNotations.
 From GU Require Import C08.Regex C08.Model C08.Proofs C08.ProofsGen C08.Gen.
 Local Open Scope Z_scope.
@@ -238,6 +238,17 @@ Theorem invalid_pattern_rejected_first : forall op raw root dest base t,
 Proof. intros. apply g_invalid; auto; destruct op; reflexivity. Qed.
 Print Assumptions invalid_pattern_rejected_first.
 
+(* the package-level convenience functions (they forward to the global file system) and every function or method with a
+   pattern parameter hand ALL their parameters on — in particular the patterns: calling an operation through any of them
+   is calling the operation. [gen_wrappers] is enumerated from the package by the translator on every run. *)
+Theorem wrappers_forward_everything : forall w, In w gen_wrappers ->
+  forall op raw root dest base t, grun_wrapper gen w op raw root dest base t = grun_op gen op raw root dest base t.
+Proof.
+  assert (H : forallb w_forwards_all gen_wrappers = true) by reflexivity.
+  intros w I. unfold grun_wrapper. rewrite (proj1 (forallb_forall _ _) H w I). reflexivity.
+Qed.
+Print Assumptions wrappers_forward_everything.
+
 (* D11, repaired: with the facts of the code before the repair (CleanDir does not hand the patterns down) a protected
    entry below the first level is lost. Kept as documentation; the harness replays the witness on every run. *)
 Theorem clean_excl_refuted_before_fix :
@@ -279,4 +290,8 @@ Proof. intros p [<-|[]]. reflexivity. Qed.
 Example ex_copy : grun_op gen (OCopy true) ex_raw [116] [111] [116] ex_tree =
   GOut [([[116]], true); ([[116];[100]], true); ([[116];[100];[97]], false); ([[116];[98]], false)].
 Proof. reflexivity. Qed.
+Example ex_wrappers_enumerated :
+  existsb (fun w => String.eqb (w_name w) "LsRecursiveWithExclusionPatterns"%string && w_global w && w_patterns w) gen_wrappers = true
+  /\ existsb (fun w => String.eqb (w_name w) "ExcludeAll"%string && w_global w && w_patterns w) gen_wrappers = true.
+Proof. split; reflexivity. Qed.
 Example ex_generated_facts_are_the_expected_ones : gen = expected_facts. Proof. reflexivity. Qed.
